@@ -3,6 +3,7 @@ package main
 // Function-level driver: entry state, requires, body, ensures, frame.
 
 import (
+	"os"
 	"fmt"
 	"go/ast"
 	"go/constant"
@@ -850,7 +851,10 @@ func uniqueSorted(xs []string) []string {
 func (v *Verifier) assumeAxiom(s *State, env *CEnv, ax *Axiom) {
 	defer func() {
 		if r := recover(); r != nil {
-			if _, ok := r.(subsetError); ok {
+			if se, ok := r.(subsetError); ok {
+				if os.Getenv("GVC_DEBUG") != "" {
+					fmt.Fprintf(os.Stderr, "axiom %s skipped: %v\n", ax.Name, se)
+				}
 				return
 			}
 			panic(r)
@@ -859,7 +863,13 @@ func (v *Verifier) assumeAxiom(s *State, env *CEnv, ax *Axiom) {
 	n := len(s.pc)
 	t := env.at(s, s).trBool(ax.Expr)
 	s.pc = s.pc[:n] // drop side facts produced while translating
-	s.assume(t)
+	if os.Getenv("GVC_NOPAT") != "" {
+		s.assume(t)
+	} else {
+		for _, c := range splitAxiom(t) {
+			s.assume(withInferredPattern(c))
+		}
+	}
 	for _, p := range s.pc[n:] {
 		v.axiomSet[p] = true
 	}
@@ -907,4 +917,135 @@ func isConstCExpr(c *CExpr) bool {
 		return isConstCExpr(c.X)
 	}
 	return false
+}
+
+// withInferredPattern gives a pattern-less universally quantified axiom an explicit
+// trigger, so that the solver does not pick one that makes axioms feed each other
+// without bound (e.g. beNat/beMin/beBytes).  For a (conditional) equation L == R the
+// trigger is L when it is an application that mentions every bound variable; otherwise
+// the smallest spec-function application that does.  No such term: left to the solver.
+func withInferredPattern(t *Term) *Term {
+	if t.Op != "forall" || len(t.Args) != 1 || len(t.Binders) == 0 {
+		return t
+	}
+	body := t.Args[0]
+	for body.Op == "=>" && len(body.Args) == 2 {
+		body = body.Args[1]
+	}
+	covers := func(x *Term) bool {
+		str := x.String()
+		for _, b := range t.Binders {
+			if !containsWord(str, b.String()) {
+				return false
+			}
+		}
+		return !containsOp(x, "ite") && !containsOp(x, "forall") && !containsOp(x, "exists")
+	}
+	isApp := func(x *Term) bool {
+		return strings.HasPrefix(x.Op, "spec.") && len(x.Args) > 0
+	}
+	var pat *Term
+	if body.Op == "=" && len(body.Args) == 2 {
+		for _, side := range body.Args {
+			if (isApp(side) || (side.Op == "select" && containsSpecApp(side))) && covers(side) {
+				pat = side
+				break
+			}
+		}
+	}
+	if pat == nil {
+		var walk func(x *Term)
+		seen := map[*Term]bool{}
+		walk = func(x *Term) {
+			if x == nil || seen[x] || x.IsLit {
+				return
+			}
+			seen[x] = true
+			if isApp(x) && covers(x) && (pat == nil || x.Size() < pat.Size()) {
+				pat = x
+			}
+			for _, a := range x.Args {
+				walk(a)
+			}
+		}
+		walk(t.Args[0])
+	}
+	if pat == nil {
+		return t
+	}
+	return Forall(t.Binders, t.Args[0], pat)
+}
+
+func containsSpecApp(x *Term) bool {
+	if strings.HasPrefix(x.Op, "spec.") && len(x.Args) > 0 {
+		return true
+	}
+	for _, a := range x.Args {
+		if containsSpecApp(a) {
+			return true
+		}
+	}
+	return false
+}
+
+func containsWord(s, w string) bool {
+	for i := 0; ; {
+		j := strings.Index(s[i:], w)
+		if j < 0 {
+			return false
+		}
+		j += i
+		end := j + len(w)
+		okL := j == 0 || !isIdentByte(s[j-1])
+		okR := end == len(s) || !isIdentByte(s[end])
+		if okL && okR {
+			return true
+		}
+		i = j + 1
+	}
+}
+
+func isIdentByte(c byte) bool {
+	return c == '_' || c == '!' || c == '.' || c == '@' || (c >= '0' && c <= '9') || (c >= 'a' && c <= 'z') || (c >= 'A' && c <= 'Z')
+}
+
+// splitAxiom: forall xs :: A ==> (P && Q)  becomes one axiom per conjunct, so that each
+// gets its own trigger.
+func splitAxiom(t *Term) []*Term {
+	if t.Op == "and" && !t.IsLit {
+		var out []*Term
+		for _, a := range t.Args {
+			out = append(out, splitAxiom(a)...)
+		}
+		return out
+	}
+	if t.Op != "forall" || len(t.Args) != 1 {
+		return []*Term{t}
+	}
+	var hyps []*Term
+	body := t.Args[0]
+	for body.Op == "=>" && len(body.Args) == 2 {
+		hyps = append(hyps, body.Args[0])
+		body = body.Args[1]
+	}
+	if body.Op != "and" || body.IsLit || len(body.Args) < 2 {
+		return []*Term{t}
+	}
+	var out []*Term
+	for _, c := range body.Args {
+		b := c
+		for i := len(hyps) - 1; i >= 0; i-- {
+			b = Implies(hyps[i], b)
+		}
+		// only the variables the conjunct mentions stay bound
+		var bs []*Term
+		str := b.String()
+		for _, x := range t.Binders {
+			if containsWord(str, x.String()) {
+				bs = append(bs, x)
+			}
+		}
+		out = append(out, splitAxiom(Forall(bs, b))...)
+	}
+	return out
 }
